@@ -6,5 +6,5 @@ export GOFLAGS=-mod=mod GOPROXY=off GOSUMDB=off GOTOOLCHAIN=local
 (cd lean && lake build Csvq && for f in Drivers/C*.lean; do lake build model-$(basename $f .lean | tr A-Z a-z); done)
 cp /repo/go.sum harness/go.sum
 (cd harness && for d in cmd/*/; do go build -tags verif -o /dev/null ./$d; done)
-[ -d extract ] && [ -f extract/go.mod ] && (cd extract && go build -o /dev/null ./...) || true
+for d in extract/*/; do [ -f "$d/go.mod" ] && (cd "$d" && go build -o /dev/null . ) || true; done
 echo setup-ok
